@@ -261,6 +261,12 @@ func randomDef(r *rng, k streamKnobs, local byte) defn {
 	if r.chance(k.bigEndianPct) {
 		d.arch = 1
 	}
+	if r.chance(5) {
+		d.resv = byte(r.next()) // reserved byte: any value, ignored by readers
+	}
+	if r.chance(k.badDefs) {
+		d.arch = byte(2 + r.intn(254)) // not a byte order: the definition is rejected
+	}
 	msgs := knownMsgs()
 	if k.unknownMsgs && r.chance(20) {
 		d.global = uint16([]int{0xFF00, 61, 400, 0xFFFE, 11, 13, 160}[r.intn(7)])
